@@ -684,8 +684,14 @@ def cmd_check(args):
         seed = 0
     t_start = time.time()
     global LOG_DIR
-    LOG_DIR = os.path.join(VERIF, ".kvlogs", "%s-%s" % (prop, tier))
-    shutil.rmtree(LOG_DIR, ignore_errors=True)
+    # one log directory per run; directories of finished earlier runs of the same check are pruned
+    logroot = os.path.join(VERIF, ".kvlogs")
+    os.makedirs(logroot, exist_ok=True)
+    for d in os.listdir(logroot):
+        m = re.match(r"%s-%s-(\d+)$" % (re.escape(prop), re.escape(tier)), d)
+        if m and not os.path.exists("/proc/%s" % m.group(1)):
+            shutil.rmtree(os.path.join(logroot, d), ignore_errors=True)
+    LOG_DIR = os.path.join(logroot, "%s-%s-%d" % (prop, tier, os.getpid()))
     os.makedirs(LOG_DIR, exist_ok=True)
     os.makedirs(EVID_DIR, exist_ok=True)
 
